@@ -88,6 +88,28 @@ def run_job(job):
                 if f and f.get('contract') and not f.get('external') and f['key'] not in _ex.FORCE_EXTERNAL:
                     bad.add(f['key'])
         if not bad or attempt == 3:
+            # confirmation run: a genuine failure is deterministic, an unstable proof is not.  When the first run reports failed
+            # obligations, the file is verified again with every function in its own solver instance and 3x the resource limit;
+            # only functions that fail in BOTH runs are reported (never an alarm from solver instability).
+            if any(d.kind() in ('verif', 'limit') for d in job.res.diags) and not os.environ.get('GV_NO_CONFIRM'):
+                first = job.res
+                second = verus.run(job.gen.path, rlimit=30, threads=max(job.threads, 8), extra=['-V', 'spinoff-all'])
+                if not second.crashed:
+                    failed2 = set()
+                    for d in second.diags:
+                        if d.kind() in ('verif', 'limit') and d.primary_line:
+                            f = job.gen.fn_at(d.primary_line)
+                            failed2.add(f['key'] if f else None)
+                    kept = []
+                    for d in first.diags:
+                        if d.kind() in ('verif', 'limit') and d.primary_line:
+                            f = job.gen.fn_at(d.primary_line)
+                            if (f['key'] if f else None) not in failed2:
+                                continue        # passed in the confirmation run: unstable, not a violation
+                        kept.append(d)
+                    first.diags = kept
+                    first.confirmed_with = second.cmd
+                    first.smt_ms += second.smt_ms
             break
         _ex.FORCE_EXTERNAL |= bad
         try:
